@@ -45,6 +45,7 @@ def uid_program(draw):
             steps.append({"op": "DELETE", "fe": fe, "coll": coll, "name": draw(st.sampled_from(names)), "cond": []})
         else:
             steps.append({"op": "RESTART"})
+        gen_prog.wrap_locked(draw, steps, 9)  # a write refused as locked must not leave its UID behind
     return {"config": cfg, "steps": steps}
 
 
